@@ -35,17 +35,19 @@ type Config struct {
 	// Deep configs get the full length in the all-sequences phase, the others one less (own-map
 	// and lru3 behave like mapcache and lru2 there; the BFS phase treats all configs alike).
 	Deep bool `json:"all_sequences_full_length"`
+	// Family configs also run the near-equal text families (alphabet.go).
+	Family bool `json:"family"`
 }
 
 var configs = []Config{
 	{Name: "own-map", ApqKind: "own"},
-	{Name: "mapcache", ApqKind: "mapcache", Deep: true},
-	{Name: "lru1", ApqKind: "lru", ApqCap: 1, Deep: true},
+	{Name: "mapcache", ApqKind: "mapcache", Deep: true, Family: true},
+	{Name: "lru1", ApqKind: "lru", ApqCap: 1, Deep: true, Family: true},
 	{Name: "lru2", ApqKind: "lru", ApqCap: 2, Deep: true},
 	{Name: "lru3", ApqKind: "lru", ApqCap: 3},
-	{Name: "mapcache+qc2", ApqKind: "mapcache", QC: true, QCCap: 2, Deep: true},
-	{Name: "lru2+qc1", ApqKind: "lru", ApqCap: 2, QC: true, QCCap: 1, Deep: true},
-	{Name: "lru1+qc2", ApqKind: "lru", ApqCap: 1, QC: true, QCCap: 2},
+	{Name: "mapcache+qc2", ApqKind: "mapcache", QC: true, QCCap: 2, Deep: true, Family: true},
+	{Name: "lru2+qc1", ApqKind: "lru", ApqCap: 2, QC: true, QCCap: 1, Deep: true, Family: true},
+	{Name: "lru1+qc2", ApqKind: "lru", ApqCap: 1, QC: true, QCCap: 2, Family: true},
 }
 
 func configByName(n string) (Config, bool) {
